@@ -167,7 +167,7 @@ def run(ck, facts, tier):
                 continue                      # judged in the context of its reviewed callers
             rt = roots.setdefault(cc.root_of(name), {})
             for kind, sites in per.items():
-                rt.setdefault(kind, []).extend((s["ctrl"], name, s["ln"]) for s in sites)
+                rt.setdefault(kind, []).extend((s["ctrl"], name, s["ln"], s.get("loop", 0)) for s in sites)
             for kind, ex in absorbed.get(name, {}).items():
                 rt.setdefault(kind, []).extend(ex)
         for root, per in sorted(roots.items()):
@@ -176,7 +176,9 @@ def run(ck, facts, tier):
                 sites = sorted(sites, key=lambda t: (t[0], t[2]))
                 budget = sorted(ent["ctrl"]) if ent else []
                 nsites += len(sites)
-                for n, (d, fn_, ln) in enumerate(sites):
+                for n, site_ in enumerate(sites):
+                    d, fn_, ln = site_[:3]
+                    lp = site_[3] if len(site_) > 3 else None
                     where = "%s:%d" % (facts.mir[fn_]["file"], ln)
                     key = "%s:%s#%d" % (fam, kind, n)
                     via = "" if cc.root_of(fn_) == root else " (in helper %s)" % fn_
@@ -196,6 +198,10 @@ def run(ck, facts, tier):
                     elif d < budget[n]:
                         ck.fail(r1, key + ":guard", "panic edge `%s`%s lost a dominating guard (control depths now %s, reviewed %s): %s"
                                 % (kind, via, [t[0] for t in sites], budget, ent["reason"]), where)
+                    elif ent.get("loop") and lp is not None and lp < ent["loop"]:
+                        # the review relies on the site running once per iteration of a loop (never, when the loop runs zero times): hoisted out of it, the edge is live
+                        ck.fail(r1, key + ":loop", "panic edge `%s`%s is no longer inside the loop the review relies on (loop depth %d, reviewed %d): %s"
+                                % (kind, via, lp, ent["loop"], ent["reason"]), where)
                     else:
                         ck.ok(r1, key, sample="class %s: %s (ctrl depth %d)" % (ent["class"], ent["reason"], d))
     ck.extra["reachable_functions"] = len(R)
@@ -390,7 +396,7 @@ def call_path(P, target, limit=6):
 
 
 # ---------------------------------------------------------------- R20.6
-def shape_rule(ck, facts, accept=None):
+def shape_rule(ck, facts, accept=None, only_keys=None):
     """Every Ok path of a validating constructor / loader returns a value whose shape invariant is true by construction or by a condition of that path.
     With `accept` (a rule id, used by C16): additionally, a loader's Ok path demands nothing but the invariant — it accepts every well-shaped object."""
     import cel, paths
@@ -401,7 +407,7 @@ def shape_rule(ck, facts, accept=None):
                              "under the same conditions as a solved one minus |c| = n", floor=5)
     r6 = ck.rule("R20.6", "every Ok path of a validating constructor or loader returns a value whose shape invariant holds by construction or is a condition of that path "
                           "(|vars| = |dual|; dual2 is |vars| x |vars|; currency name 3 bytes; pair currencies distinct; n = |t| - k, |c| = n, t non-decreasing) — and at "
-                          "least one Err path exists for each such condition", floor=10)
+                          "least one Err path exists for each such condition", floor=10 if only_keys is None else 4)
     D1, D2 = "dual::dual::Dual", "dual::dual::Dual2"
 
     def inv_dual(x, num):
@@ -423,6 +429,8 @@ def shape_rule(ck, facts, accept=None):
         return out
 
     def run_case(key, fn, args, leaf_invariants, where_fn=None):
+        if only_keys is not None and not re.search(only_keys, key):
+            return
         r = facts.fn(fn)
         where = "%s:%d" % (r["file"], r["line"]) if r else None
         if r is None:
